@@ -5,7 +5,15 @@ boundary may fall anywhere, including inside a quoted field or a multi-byte
 sequence.  WriteBuffer collects what is written."""
 
 
+from vp.harness import unmodelled_attr
+
+
 class ShortReadFile(object):
+    closed = False
+
+    def __getattr__(self, name):
+        unmodelled_attr('file object (reading) .', name)
+
     def __init__(self, data, cuts):
         self.data = data
         self.cuts = list(cuts)      # absolute positions at which reads stop short
@@ -32,10 +40,20 @@ class ShortReadFile(object):
         return False
 
     def close(self):
-        pass
+        self.closed = True
 
 
 class WriteBuffer(object):
+    def __getattr__(self, name):
+        unmodelled_attr('file object (writing) .', name)
+
+    def flush(self):
+        pass
+
+    def writelines(self, lines):
+        for l in lines:
+            self.write(l)
+
     def __init__(self, empty):
         self.parts = []
         self.empty = empty
